@@ -12,7 +12,7 @@ ID = "C02"
 RULE = ("seeded VRPTW instances (2..5 nodes; windows in quarters incl. inf and zero width; unreachable customers; costs of either sign) x "
         "formulation (arc with unsorted/sparse/complete grids; path with pools of valid and invalid candidate routes; sequence with V in 0..3, "
         "L in 3..5, strict/non-strict) x before/after the feasibility heuristic x mode x rho in {default, 0, 1/4, 3, -2}; brute force over all "
-        "2^n vectors for n <= 14 (thorough 17), random vectors beyond; non-trivial = n >= 2 with at least one feasible and one infeasible vector "
+        "2^n vectors for n <= 14 (both tiers), 4000 random vectors beyond; non-trivial = n >= 2 with at least one feasible and one infeasible vector "
         "examined; distinct = distinct case")
 ASSUMPTIONS = [
     "sequence-based: L >= 3 (for L = 2 the code itself drops a constant of the objective and says so)",
@@ -27,6 +27,17 @@ RHOS = [None, None, Fraction(0), Fraction(1, 4), Fraction(3), Fraction(-2)]
 def gen(rng, tier):
     n_cases = 220 if tier == "quick" else 3000
     for k in range(n_cases):
+        if k % 11 == 6:
+            # a formulation obtained from a MIRP through its getter (small integer MIRPs; the identity is checked on sampled vectors
+            # when there are more than 14 variables)
+            from .c16 import small_mirp
+            form = rng.choice(["arc", "path", "seq"])
+            case = dict(form=form, mirp=small_mirp(rng), spec=dict(nodes=[], arcs=[]), strict=rng.random() < 0.5, seed=rng.randrange(10 ** 6),
+                        feas=rng.random() < 0.4, rho=None if rng.random() < 0.6 else fs(rng.choice([Fraction(1, 4), Fraction(3)])))
+            if rng.random() < 0.5:
+                case["heur"] = rng.choice(["10", "40"])
+            yield case
+            continue
         case = FU.gen_form_case(rng, tier, heur_p=0.5)
         if k % 5 == 4:
             # heuristic-sensitive shape: a customer that can leave for the depot but cannot be entered from it, with the
@@ -64,6 +75,7 @@ def run_case(case, drv, nmax=None):
     o, outcome = FU.build_form(case)
     FU.check_fresh_twin(o, case["form"], res)
     res.features += [f"form:{form}", f"heur:{outcome if outcome in (None, 'ok') else 'raised'}", f"mode:{'feas' if case['feas'] else 'opt'}",
+                     f"source:{'mirp-getter' if case.get('mirp') is not None else 'vrptw'}",
                      f"rho:{case['rho']}"]
     if outcome not in (None, "ok"):
         # the heuristic failed loudly (C09's business); the object keeps a consistent instance state only if it had not started changing it
